@@ -4,6 +4,7 @@ import (
 	"bytes"
 	"io"
 
+	"git.apache.org/thrift.git/lib/go/thrift"
 	erpc "github.com/henrylee2cn/erpc/v6"
 	"github.com/henrylee2cn/erpc/v6/socket"
 )
@@ -217,4 +218,122 @@ func VX_C06_ThriftBytes(args []int) {
 	}()
 	vxAssert(w.off <= n, "never consumed more than was sent")
 	vxCover("c06.thrift.end")
+}
+
+func init() {
+	vxRegister("VX_C05_ThriftStruct", VX_C05_ThriftStruct)
+}
+
+// vxTBody is a hand-written thrift struct: 1: string text, 2: i32 num.
+type vxTBody struct {
+	Text string
+	Num  int32
+}
+
+func (s *vxTBody) Write(p thrift.TProtocol) error {
+	if err := p.WriteStructBegin("vx"); err != nil {
+		return err
+	}
+	p.WriteFieldBegin("text", thrift.STRING, 1)
+	if err := p.WriteString(s.Text); err != nil {
+		return err
+	}
+	p.WriteFieldEnd()
+	p.WriteFieldBegin("num", thrift.I32, 2)
+	if err := p.WriteI32(s.Num); err != nil {
+		return err
+	}
+	p.WriteFieldEnd()
+	if err := p.WriteFieldStop(); err != nil {
+		return err
+	}
+	return p.WriteStructEnd()
+}
+
+func (s *vxTBody) Read(p thrift.TProtocol) error {
+	if _, err := p.ReadStructBegin(); err != nil {
+		return err
+	}
+	for {
+		_, tp, id, err := p.ReadFieldBegin()
+		if err != nil {
+			return err
+		}
+		if tp == thrift.STOP {
+			break
+		}
+		switch {
+		case id == 1 && tp == thrift.STRING:
+			if s.Text, err = p.ReadString(); err != nil {
+				return err
+			}
+		case id == 2 && tp == thrift.I32:
+			if s.Num, err = p.ReadI32(); err != nil {
+				return err
+			}
+		default:
+			if err = p.Skip(tp); err != nil {
+				return err
+			}
+		}
+		if err = p.ReadFieldEnd(); err != nil {
+			return err
+		}
+	}
+	return p.ReadStructEnd()
+}
+
+// VX_C05_ThriftStruct: the thrift struct protocol (body written directly as
+// a thrift struct): Unpack(Pack(m)) preserves seq, type, method, status,
+// metadata and body; two frames back to back stay in sync.
+// args: group(0 method, 1 body text, 2 meta value, 3 status msg, 4 seq+num), n
+func VX_C05_ThriftStruct(args []int) {
+	group, n := args[0], args[1]
+	sym := vxString("sym", n)
+	method, text, mv, smsg := "/m", "t", "v", ""
+	seq, num := int32(77), int32(5)
+	switch group {
+	case 0:
+		method = sym
+	case 1:
+		text = sym
+	case 2:
+		mv = sym
+	case 3:
+		smsg = sym
+	case 4:
+		seq, num = vxInt32("seq"), vxInt32("num")
+	}
+	mk := func(seq int32) socket.Message {
+		m := socket.NewMessage()
+		m.SetSeq(seq)
+		m.SetMtype(erpc.TypeReply)
+		m.SetServiceMethod(method)
+		m.SetBody(&vxTBody{Text: text, Num: num})
+		m.Meta().Add("k", mv)
+		if group == 3 {
+			m.SetStatus(erpc.NewStatus(400, smsg, ""))
+		}
+		return m
+	}
+	w := &vxTBuf{}
+	pw := NewStructProtoFunc()(w)
+	pr := NewStructProtoFunc()(w)
+	vxAssume(pw.Pack(mk(seq)) == nil && pw.Pack(mk(seq+1)) == nil)
+	for k := int32(0); k < 2; k++ {
+		got := socket.NewMessage(socket.WithNewBody(func(socket.Header) interface{} { return new(vxTBody) }))
+		vxAssert(pr.Unpack(got) == nil, "Unpack of a packed frame succeeds (thrift struct protocol)")
+		vxAssert(got.Seq() == seq+k && got.Mtype() == erpc.TypeReply && got.BodyCodec() == 't', "seq/mtype/codec round trip")
+		vxAssert(got.ServiceMethod() == method, "service method round trip")
+		vxAssert(string(got.Meta().Peek("k")) == mv && got.Meta().Len() == 1, "metadata round trip")
+		if group == 3 {
+			vxAssert(got.Status(true).Code() == 400 && got.Status(true).Msg() == smsg, "[C04] status round trip over the thrift struct protocol")
+		} else {
+			vxAssert(got.StatusOK(), "[C04] OK status round trip")
+		}
+		b, ok := got.Body().(*vxTBody)
+		vxAssert(ok && b.Text == text && b.Num == num, "body round trip")
+	}
+	vxAssert(w.off == len(w.data), "both frames consumed exactly")
+	vxCover("c05.thriftstruct.roundtrip")
 }
